@@ -180,7 +180,7 @@ public:
     }
 
     slice_t& operator=(const base_array<T>& rhs) {
-        DSPLIB_ASSERT(&_base != &rhs, "Assigned array to same slice");
+        //the array may be the one this slice belongs to: the slice assignment below copies overlapping ranges safely
         return (*this = rhs.slice(0, rhs.size()));
     }
 
